@@ -20,6 +20,13 @@
 // over-eager normalisation would merge, and with user-name maps built from
 // configuration text that cover the documented table options (xenv_test.go,
 // xnames_test.go).
+//
+// Groups E (4_000_000..) and F (5_000_000..): histories and wire scenarios over
+// e-mail-like user names with internationalised domains - accounts under the
+// canonical U-label spelling, logins through A-label / upper-case / decomposed
+// spellings (idn_test.go). The wire groups B, D and F place auth_map and
+// auth_map_normalize in the endpoint block, in the global configuration scope
+// (read by maddy.ReadGlobals), or in both (scope_test.go).
 package c14
 
 import (
@@ -81,6 +88,18 @@ func TestVerif(t *testing.T) {
 	nD := r.N(95, 1900) * want("D")
 	for i := 0; i < nD; i++ {
 		r.Run(groupD+i, fmt.Sprintf("xwire-%d", i), func(c *rep.Case) { runWireX(t, r, c, groupD+i) })
+	}
+	// fifth widening: internationalised domains (idn_test.go); the wire groups
+	// B, D and F also vary the configuration scope of auth_map /
+	// auth_map_normalize (scope_test.go)
+	selfCheckIDN(t)
+	nE := r.N(160, 3840) * want("E")
+	for i := 0; i < nE; i++ {
+		r.Run(groupE+i, fmt.Sprintf("idnhist-%d", i), func(c *rep.Case) { runHistoryIDN(t, r, c, groupE+i) })
+	}
+	nF := r.N(48, 1280) * want("F")
+	for i := 0; i < nF; i++ {
+		r.Run(groupF+i, fmt.Sprintf("idnwire-%d", i), func(c *rep.Case) { runWireIDN(t, r, c, groupF+i) })
 	}
 }
 
@@ -735,6 +754,11 @@ func judgeAuth(c *rep.Case, e *env, mech string, o authObs, expect bool, canonLo
 			cause = "other-mechanism-accepts/map=" + e.nmap.name()
 		case variant != "canon" && retryCanon != nil && retryCanon():
 			cause = "name-spelling=" + variant
+			if strings.HasPrefix(variant, "idn-") {
+				// one cause class per kind of domain spelling (A-label / U-label in
+				// another case or decomposed), not per letter-case pattern
+				cause = "name-spelling=idn-" + idnClass(variant) + "-domain"
+			}
 		case e.x != nil && e.pt.AuthPlain(canonAcct, pw) == nil:
 			// the credentials module itself accepts (documented account name,
 			// password): whatever stands before it - normaliser, user-name map,
@@ -873,12 +897,17 @@ func playHistory(t *testing.T, r *rep.Reporter, c *rep.Case, idx int, p *prng.R,
 				if unstable(pw) {
 					k.okUnstable++
 				}
+				if e.x != nil && e.x.idn && strings.HasPrefix(vk, "idn-") {
+					k.xc("idn_success_via_"+idnClass(vk)+"_spelling_of_domain", 1)
+					k.xc("idn_success_via_"+idnClass(vk)+"_spelling_of_domain/auth_map_normalize="+e.norm, 1)
+					r.Distinct("idn_spellings_accepted", vk+" under "+e.norm)
+				}
 				if e.x != nil {
-					k.xc("x_success_on_store="+e.x.backend, 1)
-					k.xc("x_success_via_map="+e.nmap.name(), 1)
-					k.xc("x_success_in_name_family="+e.x.uni.family, 1)
+					k.xc(e.x.cp+"success_on_store="+e.x.backend, 1)
+					k.xc(e.x.cp+"success_via_map="+e.nmap.name(), 1)
+					k.xc(e.x.cp+"success_in_name_family="+e.x.uni.family, 1)
 					if len(e.x.uni.partner[canonAcct]) > 0 {
-						k.xc("x_success_on_account_of_a_pattern_or_near_merge_pair", 1)
+						k.xc(e.x.cp+"success_on_account_of_a_pattern_or_near_merge_pair", 1)
 					}
 				}
 			} else {
@@ -896,16 +925,19 @@ func playHistory(t *testing.T, r *rep.Reporter, c *rep.Case, idx int, p *prng.R,
 					k.refusedDeleted++
 					nontrivial = true
 				}
+				if e.x != nil && e.x.idn && strings.HasPrefix(vk, "idn-") && a != nil && a.exists {
+					k.xc("idn_refused_wrong_password_via_"+idnClass(vk)+"_spelling_of_domain", 1)
+				}
 				if e.x != nil {
-					k.xc("x_refusal_on_store="+e.x.backend, 1)
+					k.xc(e.x.cp+"refusal_on_store="+e.x.backend, 1)
 					if !mapped {
-						k.xc("x_refused_no_mapping_via_map="+e.nmap.name(), 1)
+						k.xc(e.x.cp+"refused_no_mapping_via_map="+e.nmap.name(), 1)
 						// refused only because the map (option case_insensitive no, a
 						// key written in another case) is case-sensitive
 						if nf, ok := docNormalize(e.norm, name); ok && nf != strings.ToLower(nf) {
 							if v, ok := e.nmap.apply(strings.ToLower(nf)); ok {
 								if _, ok := storeKey(v); ok {
-									k.xc("x_refused_where_a_case_insensitive_map_lookup_would_have_mapped", 1)
+									k.xc(e.x.cp+"refused_where_a_case_insensitive_map_lookup_would_have_mapped", 1)
 								}
 							}
 						}
@@ -914,13 +946,13 @@ func playHistory(t *testing.T, r *rep.Reporter, c *rep.Case, idx int, p *prng.R,
 					// (pattern / near-merge) account of the one looked up
 					for _, y := range e.x.uni.partner[canonAcct] {
 						if ya := e.model.accts[y]; mapped && ya != nil && ya.exists && ya.pw == pw {
-							k.xc("x_refused_password_of_partner_account_on_store="+e.x.backend, 1)
-							k.xc("x_refused_password_of_partner_account_in_name_family="+e.x.uni.family, 1)
+							k.xc(e.x.cp+"refused_password_of_partner_account_on_store="+e.x.backend, 1)
+							k.xc(e.x.cp+"refused_password_of_partner_account_in_name_family="+e.x.uni.family, 1)
 							if a == nil || !a.exists {
-								k.xc("x_refused_password_of_partner_account_for_missing_account", 1)
+								k.xc(e.x.cp+"refused_password_of_partner_account_for_missing_account", 1)
 							}
 							if strings.ContainsAny(y+canonAcct, "ßς") {
-								k.xc("x_refused_password_of_account_that_differs_by_case_folding_only", 1)
+								k.xc(e.x.cp+"refused_password_of_account_that_differs_by_case_folding_only", 1)
 							}
 							nontrivial = true
 							break
@@ -946,7 +978,7 @@ func playHistory(t *testing.T, r *rep.Reporter, c *rep.Case, idx int, p *prng.R,
 		if !(e.norm == "auto" || e.norm == "precis_casefold") && p.Bool() {
 			kinds = []string{"canon"} // weak normalisers: keep the canonical spelling frequent
 		}
-		name, vk := spell(p, cl, prng.Pick(p, kinds))
+		name, vk := e.spellLogin(p, cl, prng.Pick(p, kinds))
 		return cl, name, vk
 	}
 	// prime: a successful authentication right before the account changes.
@@ -1010,17 +1042,17 @@ func playHistory(t *testing.T, r *rep.Reporter, c *rep.Case, idx int, p *prng.R,
 			if ya != nil && ya.exists && !slow(y) {
 				cl, name, vk := loginFor(y)
 				authPair("auth-partner-own-password-after-change", cl, name, vk, ya.pw, "current")
-				k.xc("x_partner_account_probed_with_its_own_password_after_change", 1)
+				k.xc(e.x.cp+"partner_account_probed_with_its_own_password_after_change", 1)
 			}
 			if xa != nil && xa.exists && (ya == nil || !ya.exists || ya.pw != xa.pw) && !slow(y) {
 				cl, name, vk := loginFor(y)
 				authPair("auth-partner-name-with-password-of-changed-account", cl, name, vk, xa.pw, "password-of-partner")
-				k.xc("x_cross_attempts_between_partner_accounts", 1)
+				k.xc(e.x.cp+"cross_attempts_between_partner_accounts", 1)
 			}
 			if ya != nil && ya.exists && (xa == nil || !xa.exists || xa.pw != ya.pw) && !slow(canon) {
 				cl, name, vk := loginFor(canon)
 				authPair("auth-changed-name-with-password-of-partner", cl, name, vk, ya.pw, "password-of-partner")
-				k.xc("x_cross_attempts_between_partner_accounts", 1)
+				k.xc(e.x.cp+"cross_attempts_between_partner_accounts", 1)
 			}
 		}
 	}
@@ -1028,10 +1060,10 @@ func playHistory(t *testing.T, r *rep.Reporter, c *rep.Case, idx int, p *prng.R,
 		for _, canon := range e.x.initial {
 			cross(canon)
 		}
-		k.xc("x_histories_on_store="+e.x.backend, 1)
-		k.xc("x_histories_with_map="+e.nmap.name(), 1)
+		k.xc(e.x.cp+"histories_on_store="+e.x.backend, 1)
+		k.xc(e.x.cp+"histories_with_map="+e.nmap.name(), 1)
 		if e.x.optNote != "" {
-			k.xc("x_documented_regexp_option_name_refused_alternative_used", 1)
+			k.xc(e.x.cp+"documented_regexp_option_name_refused_alternative_used", 1)
 		}
 	}
 
@@ -1058,7 +1090,7 @@ func playHistory(t *testing.T, r *rep.Reporter, c *rep.Case, idx int, p *prng.R,
 			if len(gone) > 0 && p.Chance(2, 3) {
 				canon = prng.Pick(p, gone)
 			}
-			name, vk := spell(p, canon, prng.Pick(p, variantKinds))
+			name, vk := e.spellMgmt(p, canon, prng.Pick(p, variantKinds))
 			sc := prng.Pick(p, schemes)
 			pw := genPassword(p, sc.algo == pass_table.HashBcrypt)
 			existed := e.model.get(canon).exists
@@ -1093,7 +1125,7 @@ func playHistory(t *testing.T, r *rep.Reporter, c *rep.Case, idx int, p *prng.R,
 			} else {
 				canon = prng.Pick(p, e.names)
 			}
-			name, vk := spell(p, canon, prng.Pick(p, variantKinds))
+			name, vk := e.spellMgmt(p, canon, prng.Pick(p, variantKinds))
 			pw := genPassword(p, true)
 			prime(canon)
 			err := e.pt.SetUserPassword(name, pw)
@@ -1116,7 +1148,7 @@ func playHistory(t *testing.T, r *rep.Reporter, c *rep.Case, idx int, p *prng.R,
 			} else {
 				canon = prng.Pick(p, e.names)
 			}
-			name, vk := spell(p, canon, prng.Pick(p, variantKinds))
+			name, vk := e.spellMgmt(p, canon, prng.Pick(p, variantKinds))
 			prime(canon)
 			err := e.pt.DeleteUser(name)
 			rec := opRec{Op: "delete", Name: name, Canon: canon, Variant: vk}
@@ -1151,7 +1183,7 @@ func playHistory(t *testing.T, r *rep.Reporter, c *rep.Case, idx int, p *prng.R,
 			case 1, 2:
 				canonLogin = canonAcctWanted // the provider's account name, bypassing the map
 			}
-			name, vk := spell(p, canonLogin, prng.Pick(p, variantKinds))
+			name, vk := e.spellLogin(p, canonLogin, prng.Pick(p, variantKinds))
 			if e.x != nil && len(e.x.logins) > 0 && p.Chance(1, 6) {
 				// a map key written in a non-canonical spelling, supplied literally
 				name, vk = prng.Pick(p, e.x.logins), "literal-map-key"
@@ -1188,7 +1220,7 @@ func playHistory(t *testing.T, r *rep.Reporter, c *rep.Case, idx int, p *prng.R,
 			// credentials and asks for the other co-owner's identity.
 			if a != nil && a.exists && mapped && p.Bool() {
 				if other, co := e.foreignAuthzid(p, canonLogin, canonAcct, true); co {
-					zid, _ := spell(p, other, prng.Pick(p, variantKinds))
+					zid, _ := e.spellLogin(p, other, prng.Pick(p, variantKinds))
 					zo := runPlain(e.sasl, zid, name, a.pw)
 					k.authzid++
 					k.authzidCoMapped++
@@ -1214,7 +1246,7 @@ func playHistory(t *testing.T, r *rep.Reporter, c *rep.Case, idx int, p *prng.R,
 				} else {
 					// authzid of a different class (another user, existing or not)
 					other, coMapped := e.foreignAuthzid(p, canonLogin, canonAcct, mapped)
-					zid, _ := spell(p, other, prng.Pick(p, variantKinds))
+					zid, _ := e.spellLogin(p, other, prng.Pick(p, variantKinds))
 					zo := runPlain(e.sasl, zid, name, pw)
 					k.authzid++
 					if coMapped {
